@@ -1,5 +1,7 @@
 package q
 
+import "fmt"
+
 type VariableExpr struct {
 	Name string
 }
@@ -8,6 +10,18 @@ func (e *VariableExpr) Evaluate(engine *Engine, input interface{}, args []*State
 	v, err := engine.StatementByVariableName(e.Name)
 	if err != nil {
 		return nil, err
+	}
+
+	// A variable that refers to itself (directly or through other variables)
+	// would never finish.
+	engine.variableDepth++
+	defer func() {
+		engine.variableDepth--
+	}()
+
+	if engine.variableDepth > maxVariableDepth {
+		return nil, fmt.Errorf("variable %s is defined in terms of itself",
+			e.Name)
 	}
 
 	return v.Evaluate(engine, input)
